@@ -69,22 +69,39 @@ func c08dSum(m map[int32]uint64) (s uint64) {
 
 func TestVerifC08ExpoDeep(t *testing.T) {
 	alphabet := []float64{2, 4, 8, 16, 256, -2, 0}
+	// the default size: buckets grow long at a fine scale, are shortened by a downscale (values an
+	// octave apart, one in between), and are then extended far downwards (values 4 and 11 octaves
+	// below) or upwards within what the shortened slice still has room for
+	wide := []float64{2, 1, 1.5, 0.125, 6, 1e-3, -1.5, 0}
 	var jobs []string
 	for _, ms := range []int32{0, 20} {
 		for first := range alphabet {
 			jobs = append(jobs, fmt.Sprintf("expodeep/maxscale=%d/first=%d", ms, first))
 		}
 	}
+	for first := range wide {
+		jobs = append(jobs, fmt.Sprintf("expodeep/maxscale=%d/first=%d/size=160", 20, first))
+	}
 	enum.Jobs(jobs, func(job string) {
 		r := enum.Start("C08", "expodeep")
 		defer r.Finish()
 		r.Section(job)
-		var maxScale int32
+		var maxScale, maxSize int32
 		var first int
-		fmt.Sscanf(job, "expodeep/maxscale=%d/first=%d", &maxScale, &first)
+		alphabet := alphabet
 		maxLen := enum.Pick(r, 6, 7)
-		r.Bound("expodeep_alphabet", alphabet)
-		r.Bound("expodeep_max_len", maxLen)
+		if n, _ := fmt.Sscanf(job, "expodeep/maxscale=%d/first=%d/size=%d", &maxScale, &first, &maxSize); n == 3 {
+			alphabet = wide
+			maxLen = enum.Pick(r, 5, 6)
+			r.Bound("expodeep_alphabet_size160", alphabet)
+			r.Bound("expodeep_max_len_size160", maxLen)
+		} else {
+			maxSize = 4
+		}
+		if maxSize == 4 {
+			r.Bound("expodeep_alphabet", alphabet)
+			r.Bound("expodeep_max_len", maxLen)
+		}
 		ctx := context.Background()
 		for L := 1; L <= maxLen; L++ {
 			word := make([]int, L)
@@ -108,7 +125,7 @@ func TestVerifC08ExpoDeep(t *testing.T) {
 					if !r.Want() {
 						continue
 					}
-					cas := map[string]any{"max_scale": maxScale, "max_size": 4, "collect_every": every, "values": func() (v []float64) {
+					cas := map[string]any{"max_scale": maxScale, "max_size": maxSize, "collect_every": every, "values": func() (v []float64) {
 						for _, w := range word {
 							v = append(v, alphabet[w])
 						}
@@ -118,7 +135,7 @@ func TestVerifC08ExpoDeep(t *testing.T) {
 					dr := sdk.NewManualReader(sdk.WithTemporalitySelector(deltaSel))
 					cr := sdk.NewManualReader()
 					mp := sdk.NewMeterProvider(sdk.WithReader(dr), sdk.WithReader(cr),
-						sdk.WithView(sdk.NewView(sdk.Instrument{Name: "h"}, sdk.Stream{Aggregation: sdk.AggregationBase2ExponentialHistogram{MaxSize: 4, MaxScale: maxScale}})))
+						sdk.WithView(sdk.NewView(sdk.Instrument{Name: "h"}, sdk.Stream{Aggregation: sdk.AggregationBase2ExponentialHistogram{MaxSize: maxSize, MaxScale: maxScale}})))
 					h, _ := mp.Meter("m").Float64Histogram("h")
 					// running totals of the delta points, kept at the coarsest scale seen
 					run := c08dHist{scale: 100, pos: map[int32]uint64{}, neg: map[int32]uint64{}}
